@@ -320,30 +320,82 @@ def observe_tx(tx, raw):
             'raw_kept': tx.raw == raw}
 
 
+def _canon_value(v):
+    if isinstance(v, (bytes, bytearray)):
+        return v.hex()
+    if isinstance(v, (list, tuple)):
+        return [_canon_value(x) for x in v]
+    if hasattr(v, 'source'):                      # embedded sub-script
+        return {'script': v.source.hex()}
+    return repr(v)
+
+
+def _look(scr, txo=None):
+    """one look at a Script object: template name, values, predicates -- or the exception class"""
+    try:
+        d = {'template': scr.template.name, 'values': {k: _canon_value(v) for k, v in scr.values.items()}}
+    except Exception as e:
+        d = {'err': err_name(e)}
+    for f in ('is_claim_name', 'is_update_claim', 'is_support_claim', 'is_claim_involved', 'is_pay_pubkey_hash',
+              'is_pay_script_hash'):
+        if hasattr(type(scr), f):
+            try:
+                d[f] = getattr(scr, f)
+            except Exception as e:
+                d[f] = 'raises ' + err_name(e)
+    if txo is not None:
+        for f in ('is_claim', 'is_support', 'has_address'):
+            try:
+                d[f] = getattr(txo, f)
+            except Exception as e:
+                d[f] = 'raises ' + err_name(e)
+    return d
+
+
 def impl_interpret(raw):
-    """Transaction(raw).outputs[k].script interpreted: template name, pushed values, claim predicates"""
+    """Transaction(raw): every output script (and non-coinbase input script) interpreted THREE times on the same object
+    (the wallet looks again after a caught ValueError: Database._transaction_io) and once on a fresh Script over the same
+    bytes.  returns {'outs': [[look1, look2, look3, fresh]...], 'ins': [...]}"""
     tx = Transaction(raw)
-    out = []
-    for txo in tx.outputs:
-        try:
-            scr = txo.script
-            out.append({'template': scr.template.name,
-                        'values': {k: (v.hex() if isinstance(v, (bytes, bytearray)) else repr(v)) for k, v in scr.values.items()},
-                        'is_claim_name': scr.is_claim_name, 'is_update_claim': scr.is_update_claim,
-                        'is_support_claim': scr.is_support_claim, 'is_claim_involved': scr.is_claim_involved,
-                        'is_claim': txo.is_claim})
-        except Exception as e:
-            out.append({'err': err_name(e)})
-    return out
+    outs = [[_look(txo.script, txo), _look(txo.script, txo), _look(txo.script, txo),
+             _look(OutputScript(txo.script.source), Output(txo.amount, OutputScript(txo.script.source)))] for txo in tx.outputs]
+    ins = [[_look(txi.script), _look(txi.script), _look(txi.script), _look(InputScript(txi.script.source))]
+           for txi in tx.inputs if not txi.is_coinbase]
+    return {'outs': outs, 'ins': ins}
+
+
+def monitor_kind_stable(got, expect_none=()):
+    """the kind of a parsed script is a function of its bytes: every look at the same object and a look at a fresh
+    object over the same bytes give the same answer; a script that matches no template never reports a claim kind.
+    expect_none: indices of outputs known (by construction) to match no template"""
+    for side in ('outs', 'ins'):
+        for k, looks in enumerate(got[side]):
+            if any(l != looks[0] for l in looks[1:]):
+                j = next(j for j, l in enumerate(looks) if l != looks[0])
+                what = 'a fresh Script over the same bytes' if j == 3 else 'look %d at the same object' % (j + 1)
+                diff = sorted(f for f in set(looks[0]) | set(looks[j]) if looks[0].get(f) != looks[j].get(f))
+                return (f'{side[:-1]}put script {k}: the first look says {({f: looks[0].get(f) for f in diff})}, {what} says '
+                        f'{({f: looks[j].get(f) for f in diff})} -- the reported kind is not a function of the script bytes')
+            if 'err' in looks[0]:
+                true = sorted(f for f, v in looks[0].items() if v is True)
+                if true:
+                    return f'{side[:-1]}put script {k} matches no template but reports {true}'
+    for k in expect_none:
+        if 'err' not in got['outs'][k][0]:
+            return f'output script {k} is read as {got["outs"][k][0]["template"]} although it matches no template'
+    return None
 
 
 def monitor_interpret(tpls, got):
     """every output the library built from template values must be recognised, after the round trip through bytes,
     as that kind with those values"""
-    for k, tpl in enumerate(tpls):
+    bad = monitor_kind_stable(got)
+    if bad:
+        return bad
+    for k, tpl in enumerate(tpls or []):
         if not tpl:
             continue
-        g = got[k]
+        g = got['outs'][k][0]
         name = tpl['template']
         if 'err' in g:
             return f'parsed output {k} ({name}) cannot be interpreted any more: {g["err"]}'
@@ -758,10 +810,12 @@ def saturated(run):
     return len(run.violations) >= 20
 
 
-def run_build(run, model, t, kind, kinds=(), tpls=None):
+def run_build(run, model, t, kind, kinds=(), tpls=None, expect_none=()):
     if saturated(run):
         return
     case = {'op': 'build', 'tx': t, 'kind': kind}
+    if expect_none:
+        case['no_template'] = list(expect_none)
     if tpls and any(tpls):
         case['out_tpl'] = tpls            # outputs built by the library from template values, scripts in tx by ref_script
         run.count('build:outputs-from-template-values', sum(1 for x in tpls if x))
@@ -809,8 +863,9 @@ def run_build(run, model, t, kind, kinds=(), tpls=None):
                         f'of the same values is {[t["outs"][k][1][:80] for k in wrong[:3]]}')
         run.violation(case, bad, signature={'op': 'build', 'tx': t})
         return
-    if tpls and any(tpls):
-        bad = monitor_interpret(tpls, impl_interpret(raw))
+    if nbytes < 20000 or (tpls and any(tpls)):
+        got = impl_interpret(raw)
+        bad = monitor_interpret(tpls, got) or monitor_kind_stable(got, expect_none)
         if bad:
             run.violation(case, bad, signature={'op': 'build', 'tx': t})
             return
@@ -841,6 +896,8 @@ def run_raw(run, model, raw, kind, expect_txid=None, name=None):
         run.count('raw:accepted-by-reference' + (':segwit' if ref[1] is not None else ''))
     if kind in ('corpus', 'segwit', 'valid') and ref is None:
         bad = 'harness: a case meant to be a valid transaction is rejected by the reference decoder'
+    if not bad and ref is not None and len(raw) < 20000:
+        bad = monitor_kind_stable(impl_interpret(raw))
     if bad:
         run.violation(case, bad, signature={'op': 'raw', 'raw': raw.hex()})
     else:
@@ -928,7 +985,7 @@ def read_built(tx):
     return out
 
 
-def check_current(run, model, case, tx, label):
+def check_current(run, model, case, tx, label, signature=None):
     """monitor + correspondence on the object's present state; returns False when something was reported"""
     cur = current_fields(tx)
     built = read_built(tx)
@@ -943,7 +1000,7 @@ def check_current(run, model, case, tx, label):
         if bad:
             bad = f'{label}: {bad} (fields taken from the Transaction object as it is now)'
     if bad:
-        run.violation(case, bad, signature={'op': case['op'], 'case': case})
+        run.violation(case, bad, signature=signature or {'op': case['op'], 'case': case})
         return False
     return run.compare('C05.build_raw', dict(case, at=label), built, model.call('build', tx=cur))
 
@@ -978,6 +1035,9 @@ def mk_input(row):
     h, idx, scr, seq = row
     h, scr = bytes.fromhex(h), bytes.fromhex(scr)
     return Input(TXORef(TXRefImmutable.from_hash(h, -1), idx), scr if h == NULL32 else InputScript(scr), seq)
+
+
+F3_SIGNATURE = {'finding': 'C05-F3 add_inputs/add_outputs iterable raised midway: caches not reset'}
 
 
 class CacheLog:
@@ -1022,14 +1082,35 @@ def run_sequence(run, model, case):
     log = CacheLog(tx)
     run.case(case, nontrivial=True, sample=len(json.dumps(case)) < 1200)
     n_checks = 0
+    partial_add = False
     for step in case['steps']:
         name = step[0]
+        if name in ('add_in', 'add_out', 'reset'):
+            partial_add = False
         if name == 'add_in':
             tx.add_inputs([mk_input(r) for r in step[1]])
             log.fields(tx, 'add')
         elif name == 'add_out':
             tx.add_outputs([Output(a, OutputScript(bytes.fromhex(scr))) for a, scr in step[1]])
             log.fields(tx, 'add')
+        elif name in ('add_in_fail', 'add_out_fail'):
+            # the iterable handed to add_inputs / add_outputs raises after k items: the items before are in the object
+            rows, k = step[1]
+            items = [mk_input(r) for r in rows] if name == 'add_in_fail' else \
+                [Output(a, OutputScript(bytes.fromhex(scr))) for a, scr in rows]
+
+            def failing(items=items, k=k):
+                for it in items[:k]:
+                    yield it
+                raise RuntimeError('boom')
+            try:
+                (tx.add_inputs if name == 'add_in_fail' else tx.add_outputs)(failing())
+            except RuntimeError:
+                pass
+            log.fields(tx, 'add')                 # model = repaired behaviour: a partial add still resets the caches
+            partial_add = True
+            run.count('seq:' + name)
+            continue
         elif name == 'touch':
             log.read(tx)
         elif name == 'edit':
@@ -1044,7 +1125,12 @@ def run_sequence(run, model, case):
             if not tx.inputs:
                 continue
             log.read(tx)
-            if not check_current(run, model, case, tx, 'step %d' % case['steps'].index(step)):
+            label = 'step %d' % case['steps'].index(step)
+            sig = None
+            if partial_add:
+                label += ' (after add_inputs/add_outputs whose iterable raised midway, no manual _reset)'
+                sig = F3_SIGNATURE
+            if not check_current(run, model, case, tx, label, signature=sig):
                 return
     run.count('seq:checks=%d' % n_checks)
     run.count('seq:cache-history-compared' if log.ok else 'seq:cache-history-skipped(out-of-range)')
@@ -1124,6 +1210,17 @@ def gen_sequence(rng):
                 steps.append(['touch'])           # stale read: cached bytes of the fields before the edit (model predicts it)
         steps.append(['reset'])
         steps.append(['check'])
+        if rng.random() < 0.2:
+            extra_rows = [[g64(rng), rbytes(rng, rng.choice([0, 25, 34])).hex()] for _ in range(rng.choice([1, 2, 3]))]
+            k = rng.randrange(0, len(extra_rows) + 1)
+            if rng.random() < 0.3:
+                extra_rows = [[rbytes(rng, 32).hex(), g32(rng), '', g32(rng)] for _ in extra_rows]
+                steps.append(['add_in_fail', [extra_rows, k]])
+            else:
+                steps.append(['add_out_fail', [extra_rows, k]])
+                kinds[n_out:n_out] = ['opaque'] * k
+                n_out += k
+            steps.append(['check'])
         if pending and rng.random() < 0.4:
             k = rng.randrange(1, len(pending) + 1)
             steps.append(['add_out', pending[:k]])
@@ -1516,6 +1613,54 @@ def run_db(run, model, env, case):
         run.compare('C05.deserialize', case, strip_impl(obs), model_observe(model, raw))
 
 
+def run_db_batch(run, model, env, case):
+    """what Ledger sync does with a batch in which a later transaction spends outputs of an earlier one, one of them with
+    a script matching no template: Database.save_transaction_io_batch([funding, spender]) looks at every script's template
+    twice (outputs of funding, then the spent outputs through spender's inputs).  Both must be stored and come back byte
+    for byte.  case = {'op': 'db_batch', 'script': hex of the non-template output script, 'seed': int}"""
+    if saturated(run):
+        return
+    rng = random.Random(case['seed'])
+    db, loop = env.ledger.db, env.loop
+    run.case(case, nontrivial=True)
+    run.count('db:batch')
+    pkh = env.hashes[1]
+    mine = ref_script('pay_pubkey_hash', {'pubkey_hash': pkh}).hex()
+    sig = InputScript.redeem_pubkey_hash(rbytes(rng, 71), b'\x02' + rbytes(rng, 32)).source.hex()
+    f_t = {'version': 1, 'locktime': 0, 'ins': [[rbytes(rng, 32).hex(), 0, sig, U32]],
+           'outs': [[777, case['script']], [10000, mine]]}
+    f_raw = ref_encode(f_t)
+    funding = Transaction(f_raw, height=10)
+    s_t = {'version': 1, 'locktime': 0, 'ins': [[dsha(f_raw).hex(), 0, '0101', U32], [dsha(f_raw).hex(), 1, sig, U32]],
+           'outs': [[9000, mine]]}
+    s_raw = ref_encode(s_t)
+    spender = Transaction(s_raw, height=11)
+    for txi in spender.inputs:                    # Ledger: inputs whose funding transaction is in the same batch
+        txi.txo_ref = funding.outputs[txi.txo_ref.position].ref
+
+    async def go():
+        await db.save_transaction_io_batch([funding, spender], env.addresses[1], pkh, '')
+        return await db.get_transaction(txid=funding.id), await db.get_transaction(txid=spender.id)
+
+    sig_ = {'op': 'db_batch', 'script': case['script']}
+    try:
+        got_f, got_s = loop.run_until_complete(go())
+    except Exception as e:
+        run.violation(case, f'storing a batch in which the second transaction spends the non-template output '
+                            f'({case["script"]}) of the first raised {err_name(e)}: {e}', signature=sig_)
+        return
+    for label, got, raw in (('funding', got_f, f_raw), ('spender', got_s, s_raw)):
+        if got is None or got.raw != raw:
+            run.violation(case, f'{label} transaction of the batch does not come back from the database byte for byte',
+                          signature=sig_)
+            return
+        bad = monitor_kind_stable(impl_interpret(got.raw), expect_none=[0] if label == 'funding' and case.get('known') else ())
+        if bad:
+            run.violation(case, f'{label}: {bad}', signature=sig_)
+            return
+        run.compare('C05.deserialize', dict(case, which=label), strip_impl(observe_tx(got, raw)), model_observe(model, raw))
+
+
 def db_cases(rng, env, corpus, small_valid, n):
     """corpus transactions, P2WSH-shaped segwit spends, and generated legacy / segwit encodings some of which pay us"""
     out = [bytes.fromhex(c['raw']) for c in corpus]
@@ -1616,6 +1761,24 @@ def boundary_template_txs():
             yield t, [None, tpl]
 
 
+NONSTANDARD = ['6a01aa01bb', '51', '5121' + '02' * 33 + '51ae', '6a', '00', 'ac', '76a914' + '11' * 20 + '88', 'b7', 'b501610162',
+               'b60161' + '14' + '22' * 20 + '6d75', 'ff', '0101', '75',
+               '6a4c', '6a056162', '6a4d0500aa', '6a4e', '76a915' + '11' * 20 + '88ac']     # pushes running past the end (1464461)
+
+
+def nonstandard_txs():
+    """outputs (and inputs) whose scripts match none of the library's templates (OP_RETURN with two pushes, OP_1, bare
+    multisig, truncated standard scripts ...) next to standard ones: parsed back they must stay 'no template' at every look"""
+    h = bytes(range(32)).hex()
+    std = ref_script('pay_pubkey_hash', {'pubkey_hash': bytes(range(20))}).hex()
+    sup = ref_script('support_claim+pay_pubkey_hash', {'claim_name': b'name', 'claim_id': b'\x13' * 20, 'pubkey_hash': b'\x14' * 20}).hex()
+    for k, scr in enumerate(NONSTANDARD):
+        yield {'version': 1, 'locktime': 7, 'ins': [[h, 0, '0101', U32]], 'outs': [[1000, scr], [5000, std]]}, [0]
+    yield ({'version': 1, 'locktime': 7, 'ins': [[h, 0, '', U32], [h, 1, '51', 0]],
+            'outs': [[1000 + i, scr] for i, scr in enumerate(NONSTANDARD)] + [[5000, std], [5001, sup]]},
+           list(range(len(NONSTANDARD))))
+
+
 def out_of_range_txs():
     h = bytes(range(32)).hex()
     for field, v in OUT_OF_RANGE:
@@ -1669,13 +1832,15 @@ def main(run):
         run_build(run, model, t, 'boundary')
     for t in out_of_range_txs():
         run_build(run, model, t, 'out-of-range')
+    for t, none_idx in nonstandard_txs():
+        run_build(run, model, t, 'boundary-nonstandard', expect_none=none_idx)
     for t, tpls in boundary_template_txs():
         run_build(run, model, t, 'boundary-template', tpls=tpls)
 
     # ---- compact size
     for n in CS_BOUNDARY:
         run_cs(run, model, n, 'boundary')
-    for _ in range(vlib.scaled(T, 1500, 40000)):
+    for _ in range(vlib.scaled(T, 1000, 40000)):
         run_cs(run, model, rng.getrandbits(rng.choice([7, 8, 9, 15, 16, 17, 31, 32, 33, 48, 63, 64])), 'random')
     for first in [0, 1, 252, 253, 254, 255]:
         for tail in range(0, 10):
@@ -1693,7 +1858,7 @@ def main(run):
 
     # ---- generated transactions
     small_valid = []
-    plan = ([('small', vlib.scaled(T, 1700, 30000)), ('many', vlib.scaled(T, 300, 5000)),
+    plan = ([('small', vlib.scaled(T, 1400, 30000)), ('many', vlib.scaled(T, 300, 5000)),
              ('big', vlib.scaled(T, 120, 2000))])
     for size_class, n in plan:
         for _ in range(n):
@@ -1714,7 +1879,7 @@ def main(run):
         run_segwit(run, model, t, gen_wits(rng, t), 1, 'random-many')
 
     # ---- operation sequences on one Transaction object (in-place edits, _reset, re-read)
-    for _ in range(vlib.scaled(T, 600, 12000)):
+    for _ in range(vlib.scaled(T, 500, 12000)):
         run_sequence(run, model, gen_sequence(rng))
     # ---- the daemon's channel / signed-stream flows with a real account (set_channel_private_key, Output.sign,
     # ---- Transaction.create(sign=False), Transaction.sign)
@@ -1725,6 +1890,11 @@ def main(run):
     try:
         for case in db_cases(rng, env, corpus, small_valid, vlib.scaled(T, 150, 2500)):
             run_db(run, model, env, case)
+        for scr in NONSTANDARD:
+            run_db_batch(run, model, env, {'op': 'db_batch', 'script': scr, 'known': True, 'seed': rng.getrandbits(48)})
+        for _ in range(vlib.scaled(T, 15, 300)):
+            run_db_batch(run, model, env, {'op': 'db_batch', 'script': rbytes(rng, rng.choice([1, 2, 5, 25, 40])).hex(),
+                                           'seed': rng.getrandbits(48)})
         for k in range(vlib.scaled(T, 12, 200)):
             run_chain_flow(run, model, env, {'op': 'flow', 'flow': 'chain', 'how': rng.choice(['sign', 'sign', 'change', 'both']),
                                              'seed': rng.getrandbits(48)})
@@ -1767,7 +1937,7 @@ def main(run):
         t, w = ref_decode(raw)
         pool.append((raw, field_offsets(t, w)))
     pool = [p for p in pool if len(p[0]) < 3000]
-    for _ in range(vlib.scaled(T, 5500, 100000)):
+    for _ in range(vlib.scaled(T, 4000, 100000)):
         raw, offs = rng.choice(pool)
         kind, bad = mutate(rng, raw, offs)
         run_raw(run, model, bad, 'mut-' + kind)
@@ -1787,7 +1957,7 @@ def replay(run, case):
     model = mk_model()
     op = case.get('op')
     if op == 'build':
-        run_build(run, model, case['tx'], 'replay', tpls=case.get('out_tpl'))
+        run_build(run, model, case['tx'], 'replay', tpls=case.get('out_tpl'), expect_none=case.get('no_template', ()))
     elif op == 'raw':
         run_raw(run, model, bytes.fromhex(case['raw']), case.get('kind', 'replay'), expect_txid=case.get('txid'))
     elif op == 'segwit':
@@ -1798,10 +1968,10 @@ def replay(run, case):
         run_cs_read(run, model, bytes.fromhex(case['s']), 'replay')
     elif op == 'seq':
         run_sequence(run, model, {k: v for k, v in case.items() if k != 'at'})
-    elif op == 'db':
+    elif op in ('db', 'db_batch'):
         env = Env()
         try:
-            run_db(run, model, env, case)
+            (run_db if op == 'db' else run_db_batch)(run, model, env, {k: v for k, v in case.items() if k != 'which'})
         finally:
             env.close()
     elif op == 'link':
